@@ -217,6 +217,22 @@ def _mat_getitem_cols(interp, self: Mat, args, kwargs):
             src = self.buf.fn
             bs = snapshot(b)
             return Mat(self.rows, b.length, lambda i, j: src(i, to_num(bs(j)).z), elem=self.elem)
+    if isinstance(idx, tuple) and idx[0] == "tuple" and len(idx[1]) == 2:
+        a, b = idx[1]
+        fullp = lambda p: isinstance(p, tuple) and p[0] == "slice" and all(x is None or isinstance(x, NoneV) for x in p[1:])
+        # boolean masks that are known to be the prefix mask  mask[i] = (i < K)  (attribute set by a contract after proving it):
+        # M[mask, :] / M[:, mask] are the first K rows / columns in order
+        for which, m, other in (("rows", a, b), ("cols", b, a)):
+            K = getattr(m, "prefix_upto", None) if isinstance(m, Vec) and m.elem == "bool" else None
+            if K is not None and fullp(other):
+                ctx = interp.ctx
+                ext = self.rows if which == "rows" else self.cols
+                if not ctx.branch(zint(m.length) == zint(ext), "mask-length"):
+                    raise PyRaise("IndexError", "boolean index did not match indexed array")
+                src = self.buf.fn
+                return Mat(K, self.cols, src, elem=self.elem) if which == "rows" else Mat(self.rows, K, src, elem=self.elem)
+        if fullp(b) and isinstance(a, Vec) and a.elem == "int":
+            return _mat_getitem_cols(interp, self, [a], {})          # M[idx, :] = M[idx]
     if isinstance(idx, Vec) and idx.elem == "int":
         # fancy row selection M[idx]
         ctx = interp.ctx
